@@ -365,6 +365,31 @@ def legal_variant(m):
     return (m[0], out)
 
 
+def nokw_variant(m):
+    """the module with the keyword IMPLICIT nowhere: uses written with it are dropped, a definition's
+    [t] IMPLICIT becomes [t].  By X.680 31.2.7 such a module cannot be illegal for its tagging — every
+    mode is decided by the defaults — so it shows the modes even of an asn1c that (wrongly) refuses
+    some IMPLICIT"""
+    def unkw(tg):
+        return tg if tg is None or tg[2] != 'i' else (tg[0], tg[1], 'd')
+    out = []
+    for d in m[1]:
+        if is_holder(d):
+            t = d[2]
+            if t[0] in "QP":
+                if t[2] is not None and t[2][2] == 'i':
+                    continue
+                out.append(d)
+            else:
+                keep = lambda l: [x for x in l if x[1] is None or x[1][2] != 'i']
+                nt = (t[0], keep(t[1]), None if t[2] is None else keep(t[2]), keep(t[3]))
+                if nt[1] or nt[3]:
+                    out.append((d[0], d[1], nt))
+        else:
+            out.append((d[0], unkw(d[1]), d[2]))
+    return (m[0], out)
+
+
 # ---------------------------------------------------------------- reading the emitted tables
 TAGRE = r"\(ASN_TAG_CLASS_(\w+) \| \((\d+) << 2\)\)"
 CLSNAME = {"UNIVERSAL": 'u', "APPLICATION": 'a', "CONTEXT": 'c', "PRIVATE": 'p'}
@@ -595,6 +620,10 @@ def observed_lines(m, r):
 
 def run_layer(run, rng, tier, model, asn1c, skel, scratch_dir, ncpu, run_lines):
     """generate, run asn1c and the model, compare.  Returns number of modules."""
+    def viol(kind, rep, no_input=False):
+        run.count("tm:violation:" + kind)
+        run.violation(kind, rep, no_input=no_input)
+
     cases = gen_cases(rng, tier)
     work = []
     for lab, m in cases:
@@ -603,6 +632,7 @@ def run_layer(run, rng, tier, model, asn1c, skel, scratch_dir, ncpu, run_lines):
         work.append((lab, m))
         if errors:
             work.append((lab + ":legal", legal_variant(m)))
+        work.append((lab + ":nokw", nokw_variant(m)))
     lines = [model_line(m) for _, m in work]
     rc, mo, me = run_lines(model, lines)
     if rc != 0 or len(mo) != len(lines) or any(o.startswith("EXN") or o == "BADCMD" for o in mo):
@@ -615,7 +645,7 @@ def run_layer(run, rng, tier, model, asn1c, skel, scratch_dir, ncpu, run_lines):
 
     for (lab, m), ln, o, r, text in zip(work, lines, mo, results, texts):
         run.case(ln)
-        run.count("kind:" + ":".join(lab.split(":")[:2]) + (":legal" if lab.endswith(":legal") else ""))
+        run.count("kind:" + ":".join(lab.split(":")[:2]) + (":legal" if lab.endswith(":legal") else (":nokw" if lab.endswith(":nokw") else "")))
         run.count("tm:tagging:" + m[0])
         run.count("tm:asn1c:" + r["verdict"])
         f = dict(kv.split("=", 1) for kv in o.split())
@@ -630,10 +660,10 @@ def run_layer(run, rng, tier, model, asn1c, skel, scratch_dir, ncpu, run_lines):
         run.count("tm:definitions", len([d for d in m[1] if not is_holder(d)]))
         # ---- the verdict, whatever it is
         if r["verdict"] == "CRASH":
-            run.violation("oracle:tagging-mode-verdict", dict(rep, what="asn1c died (rc %d)" % r["rc"], input=text))
+            viol("oracle:tagging-mode-verdict", dict(rep, what="asn1c died (rc %d)" % r["rc"], input=text))
             continue
         if r["verdict"] == "REJECT" and r["nfiles"] != 0:
-            run.violation("oracle:reject-writes-no-code-and-diagnoses", dict(rep, what="non-zero exit but files were written", input=text))
+            viol("oracle:reject-writes-no-code-and-diagnoses", dict(rep, what="non-zero exit but files were written", input=text))
         # which uses / definitions are diagnosed: components by identifier and holder line, definitions by name,
         # elements ("(null)") by number
         line_of = {d[0]: 2 * i + 3 for i, d in enumerate(m[1])}
@@ -667,17 +697,17 @@ def run_layer(run, rng, tier, model, asn1c, skel, scratch_dir, ncpu, run_lines):
             what = ("asn1c rejects a tagging X.680 31.2.7 allows: %s" % extra[:6] if extra else
                     "asn1c accepts IMPLICIT on an untagged CHOICE / open type: %s" % missing[:6] if missing else
                     "diagnostics outside the catalogue: %s" % r["other"][:3])
-            run.violation("oracle:tagging-mode-verdict", dict(rep, what=what, expected=xverdict[:600], got=cverdict[:600], input=text))
+            viol("oracle:tagging-mode-verdict", dict(rep, what=what, expected=xverdict[:600], got=cverdict[:600], input=text))
         if f["verdict"] != cverdict:
             run.count("model_vs_code_diff")
-            run.violation("correspondence:Fix.TagMode.tm_errors", dict(rep, what="extracted model and asn1c disagree on the verdict",
+            viol("correspondence:Fix.TagMode.tm_errors", dict(rep, what="extracted model and asn1c disagree on the verdict",
                                                                      model_verdict=f["verdict"][:600], got=cverdict[:600]), no_input=not bad)
         if r["verdict"] != "ACCEPT":
             continue
         # ---- accepted: the emitted tags
         dparts, sparts, problems = observed_lines(m, r)
         if problems:
-            run.violation("harness:tables", dict(rep, what="emitted tables not understood: " + "; ".join(problems[:4])), no_input=True)
+            viol("harness:tables", dict(rep, what="emitted tables not understood: " + "; ".join(problems[:4])), no_input=True)
             continue
         # oracle: X.680 tag lists vs the emitted ones
         obad, known = [], 0
@@ -714,7 +744,7 @@ def run_layer(run, rng, tier, model, asn1c, skel, scratch_dir, ncpu, run_lines):
                 obad.append("%d definition(s) of a tagged open type emitted without tags" % known)
         if obad:
             run.count("oracle_deviation")
-            run.violation("oracle:effective-tags", dict(rep, what="emitted tagging differs from X.680 31.2.7 / 30.6: " + "; ".join(obad[:6]),
+            viol("oracle:effective-tags", dict(rep, what="emitted tagging differs from X.680 31.2.7 / 30.6: " + "; ".join(obad[:6]),
                                                         ndiffs=len(obad), input=text))
         # faithfulness: the model's report vs the emitted tables, item by item
         mdefs = [] if f["defs"] == "-" else f["defs"].split(",")
@@ -730,7 +760,7 @@ def run_layer(run, rng, tier, model, asn1c, skel, scratch_dir, ncpu, run_lines):
             diffs.append("model reports %d definitions, %d uses; emitted %d, %d" % (len(mdefs), len(msites), len(dparts), len(sparts)))
         if diffs:
             run.count("model_vs_code_diff")
-            run.violation("correspondence:Fix.TagMode.def_report", dict(rep, what="extracted model and the emitted tag tables disagree: " + "; ".join(diffs[:6]),
+            viol("correspondence:Fix.TagMode.def_report", dict(rep, what="extracted model and the emitted tag tables disagree: " + "; ".join(diffs[:6]),
                                                                       ndiffs=len(diffs)), no_input=not obad)
         run.count("tm:onehop-differs", int(f.get("onehopdiff", "0")))
     return len(work)
